@@ -4,6 +4,7 @@ import (
 	"fmt"
 	"go/token"
 	"go/types"
+	"os"
 	"sort"
 	"strings"
 
@@ -669,6 +670,12 @@ func (vc *FuncVC) execReturn(st *State, reach Term, ins *ssa.Return) {
 	}
 	env := vc.env(st, vars)
 	tags := vc.propTags()
+	if _, dead := vc.fc.DeadRets[k]; !dead && os.Getenv("APDVC_NOCOVER") == "" {
+		// vacuity guard per return: the return is reachable under the facts accumulated so far
+		if o := vc.oblige("V", fmt.Sprintf("cover/ret%d", k), reach, TFalse, vc.propTags("C04"), ins.Pos(), "this return is reachable (the assumptions on the way are consistent)"); o != nil {
+			o.ExpectSat = true
+		}
+	}
 	for _, h := range vc.fc.PostHints {
 		call, ok := h.E.(*ECall)
 		if !ok || vc.W.spec.lemma(call.Fn) == nil {
